@@ -11,6 +11,7 @@ import (
 	"strings"
 
 	"github.com/insomniacslk/dhcp/dhcpv4"
+	"verif/seq/adapt"
 	"verif/seq/fw"
 	"verif/seq/ref/v4ref"
 	"verif/seq/v4gen"
@@ -21,6 +22,14 @@ func validate(c *fw.Ctx, scope string, ord int64, p *dhcpv4.DHCPv4, in string) {
 	if pv, st := fw.Safe(func() { enc = p.ToBytes() }); pv != nil {
 		c.Report(fw.Violation{Fingerprint: "dhcpv4.ToBytes|panic|" + fw.PanicSite(st), Order: ord, Scope: scope, Input: in, Observed: fmt.Sprint(pv)})
 		return
+	}
+	if rp, err := v4ref.ValidateCanonical(enc); err == nil {
+		// "an independent decoder recovers exactly the packet's fields and option values"
+		if f, d := adapt.DiffV4(p, rp); f != "" {
+			c.Report(fw.Violation{Fingerprint: "dhcpv4.ToBytes|reference-reading-differs|" + f, Order: ord, Scope: scope, Input: in, Observed: d,
+				Expected: "the reference decoder reads the packet's own field values from the encoding", Explain: fw.HexShort(enc)})
+			return
+		}
 	}
 	if _, err := v4ref.ValidateCanonical(enc); err != nil {
 		cls := err.Error()
